@@ -214,6 +214,7 @@ def run(ctx):
     classes = set()
     samples = []
     disagreements = []
+    model_missing = collections.Counter()
     model, err = (None, "no unit was translated") if not gen_ok else build_model(ctx, gen_ok)
     if model is None:
         failures.append(("model", {"message": err}))
@@ -225,7 +226,6 @@ def run(ctx):
         r = _run_parallel([[model, os.path.join(sw, "emit_%d.txt" % p), os.path.join(sw, "model_%d.txt" % p)] for p in range(NPARTS) if p not in bad], 1500)
         if any(x[0] != 0 for x in r):
             failures.append(("model", {"message": "model driver failed: %s" % [x for x in r if x[0] != 0][0][1][-300:]}))
-        sample_every = 256 if ctx.thorough() else 1
         for p in range(NPARTS):
             fe, fm = os.path.join(sw, "emit_%d.txt" % p), os.path.join(sw, "model_%d.txt" % p)
             if not (os.path.exists(fe) and os.path.exists(fm)):
@@ -251,7 +251,7 @@ def run(ctx):
                         if len(ub_samples) < 10:
                             ub_samples.append(le.strip())
                     elif resm == "NOFUNC":
-                        disagreements.append((name, args, resx, "function missing from the generated model"))
+                        model_missing[name] += 1     # its unit was not translated: reported below, not a disagreement
                     else:
                         disagreements.append((name, args, resx, resm))
     seen = set()
@@ -263,6 +263,12 @@ def run(ctx):
                       "harness does not call the translated function)" % name,
                       {"function": name, "input": args, "expected": resm, "observed": resx, "expected_is": "Gallina model",
                        "observed_is": "compiled C++"}, signature="diff:%s:%s" % (name, args))
+
+    if model_missing:
+        cov["functions_missing_from_model"] = dict(model_missing)
+        if not any(k == "translator" for k, _ in failures):
+            failures.append(("model", {"message": "functions exercised by the harness are missing from the generated model: %s"
+                                                  % sorted(model_missing)[:10]}))
 
     # ---- 5. obligations broke but no failing input -> say exactly what no longer checks --------
     if failures and not ctx.violations:
@@ -289,8 +295,17 @@ def run(ctx):
         "cxx_value_where_model_says_UB_samples": ub_samples,
         "asm_variants_note": "cds::bitop::MSB/LSB/MSBnz/LSBnz resolve to the inline-asm bsr/bsf functions of "
                              "cds/compiler/gcc/amd64/bitop.h, which cannot be translated: they are covered ONLY by this sweep "
-                             "(rows bitop.asm_*), compared with the translated and proved generic C versions",
+                             "(rows bitop.MSB_u32/_u64, LSB_*, MSBnz_*, LSBnz_*, BitOps4_/BitOps8_MSB/LSB/MSBnz/LSBnz and int_algo.* which calls MSBnz), "
+                             "compared with the translated and proved generic C versions (rows bitop.msb32 ... are the generic C "
+                             "versions compiled from cds/details/bitop_generic.h)",
         "seed": ctx.seed,
+        "thorough_tier_note": "thorough: all 2^32 inputs of the 32-bit functions natively against fast references (byte table / "
+                              "compiler builtins, themselves checked against the naive loops), a 1/4096 strided sample of the 32-bit "
+                              "domain plus 10x more random inputs against the extracted model, and coqchk",
+        "not_proved": [],
+        "observations": ["number_splitter<32/64-bit>::safe_cut(count >= width) on a fresh splitter calls cut(width): undefined "
+                         "behaviour (theorem number_splitter_safe_cut_full_width_is_UB); is_correct() excludes it, safe_cut does not",
+                         "ceil2(n) for n > 2^63 shifts by 64: undefined behaviour (theorem ceil2_above_2_63_is_UB)"],
     })
     ctx.log("sweep: %d model-vs-C++ evaluations, %d reference evaluations, %d classes, UB-with-value %d"
             % (evaluations, sum(ref_counts.values()), len(classes), sum(ub_with_value.values())))
